@@ -33,12 +33,74 @@ import (
 	"strings"
 )
 
-var repo, outDir string
+var repo, outDir, snapDir string
 var problems []string
+var fallbacks []string
+
+// snapDef returns the text of the sentence "Definition <name> ... ." of the snapshot file, or "".
+// The snapshot (coq/Gen.snapshot, committed) is the translator's output on the pinned tree.
+func snapDef(file, name string) string {
+	if snapDir == "" {
+		return ""
+	}
+	src, err := os.ReadFile(filepath.Join(snapDir, file))
+	if err != nil {
+		return ""
+	}
+	lines := strings.Split(string(src), "\n")
+	for i, l := range lines {
+		if strings.HasPrefix(l, "Definition "+name+" ") {
+			var out []string
+			for j := i; j < len(lines); j++ {
+				out = append(out, lines[j])
+				t := strings.TrimSpace(lines[j])
+				if k := strings.Index(t, "  (*"); k >= 0 {
+					t = strings.TrimSpace(t[:k])
+				}
+				if strings.HasSuffix(t, ".") {
+					return strings.Join(out, "\n") + "\n"
+				}
+			}
+		}
+	}
+	return ""
+}
+
+// stale: an item of the generated files that cannot be located in (or translated from) the
+// source as it is now.  With a snapshot the item's previous definition is emitted instead and
+// the run is told ("fallback <item>"): the theorems are then re-checked on that definition and
+// the model is tied to the code by the correspondence check alone for this item.  Without one
+// it is an error of the run.
+func stale(b *strings.Builder, item, file string, defs ...string) {
+	var txt []string
+	for _, d := range defs {
+		t := snapDef(file, d)
+		if t == "" {
+			problems = append(problems, "stale "+item)
+			return
+		}
+		txt = append(txt, t)
+	}
+	fmt.Fprintf(b, "(* FALLBACK %s: not located in the source as it is now; definition of the snapshot *)\n%s\n", item, strings.Join(txt, ""))
+	fallbacks = append(fallbacks, item)
+}
+
+// snapFile: whole-file fallback (registry, dispatch).
+func snapFile(file string) (string, bool) {
+	if snapDir == "" {
+		return "", false
+	}
+	src, err := os.ReadFile(filepath.Join(snapDir, file))
+	if err != nil {
+		return "", false
+	}
+	return string(src), true
+}
 
 func main() {
 	flag.StringVar(&repo, "repo", "/repo", "repository root")
 	flag.StringVar(&outDir, "out", "", "coq/Gen directory")
+	flag.StringVar(&snapDir, "snapshot", "", "directory with the generated files of the pinned tree (fallback for items that cannot be located)")
 	flag.Parse()
 	if outDir == "" {
 		fmt.Println("error: -out required")
@@ -47,15 +109,41 @@ func main() {
 	os.MkdirAll(outDir, 0o755)
 	write("Operators.v", genOperators())
 	write("Tables.v", genTables())
-	write("Registry.v", genRegistry())
-	write("VersDispatch.v", genVersDispatch())
+	write("Registry.v", wholeFile("Registry.v", "CLI registry", genRegistry))
+	write("VersDispatch.v", wholeFile("VersDispatch.v", "VERS dispatch", genVersDispatch))
 	write("Effects.v", genEffects())
+	for _, p := range fallbacks {
+		fmt.Println("fallback " + p)
+	}
 	for _, p := range problems {
 		fmt.Println(p)
 	}
 	if len(problems) > 0 {
 		os.Exit(1)
 	}
+}
+
+// wholeFile: run a generator; when it reports only "stale" problems and a snapshot of the file
+// exists, the snapshot is emitted instead (see stale).
+func wholeFile(name, item string, gen func() string) string {
+	n0 := len(problems)
+	out := gen()
+	if len(problems) == n0 {
+		return out
+	}
+	for _, p := range problems[n0:] {
+		if !strings.HasPrefix(p, "stale") {
+			return out
+		}
+	}
+	src, ok := snapFile(name)
+	if !ok {
+		return out
+	}
+	why := strings.Join(problems[n0:], "; ")
+	problems = problems[:n0]
+	fallbacks = append(fallbacks, item+" ("+why+")")
+	return "(* FALLBACK " + item + ": not located in the source as it is now; file of the snapshot *)\n" + src
 }
 
 func write(name, content string) {
@@ -160,10 +248,20 @@ func operatorList(rel string) ([]string, string) {
 					if call, ok := x.Values[i].(*ast.CallExpr); ok && len(call.Args) == 1 {
 						if s, ok := strLit(call.Args[0]); ok {
 							if m := altRe.FindStringSubmatch(s); m != nil {
+								var all []string
+								good := true
 								for _, a := range strings.Split(m[1], "|") {
-									ops = append(ops, strings.ReplaceAll(a, `\`, ""))
+									xs, ok := expandAlt(a)
+									if !ok {
+										good = false
+										break
+									}
+									all = append(all, xs...)
 								}
-								how = "constraintPattern alternation"
+								if good {
+									ops = all
+									how = "constraintPattern alternation"
+								}
 							}
 						}
 					}
@@ -175,6 +273,75 @@ func operatorList(rel string) ([]string, string) {
 	return ops, how
 }
 
+// expandAlt: the literal strings one alternative of a regexp alternation can match, in the order
+// leftmost-first matching prefers them.  Handled: literal bytes, escaped bytes, classes of
+// literal bytes ([<>]), each optionally followed by a greedy '?'.  Anything else: not translated.
+func expandAlt(a string) ([]string, bool) {
+	type atom struct {
+		chars []byte
+		opt   bool
+	}
+	var atoms []atom
+	for i := 0; i < len(a); {
+		var at atom
+		switch c := a[i]; {
+		case c == '\\':
+			if i+1 >= len(a) || !strings.ContainsRune(`\.+*?()|[]{}^$<>=!~-`, rune(a[i+1])) {
+				return nil, false
+			}
+			at.chars = []byte{a[i+1]}
+			i += 2
+		case c == '[':
+			j := strings.IndexByte(a[i:], ']')
+			if j < 2 || a[i+1] == '^' {
+				return nil, false
+			}
+			for _, x := range []byte(a[i+1 : i+j]) {
+				if strings.ContainsRune(`\-[`, rune(x)) {
+					return nil, false
+				}
+				at.chars = append(at.chars, x)
+			}
+			i += j + 1
+		case strings.ContainsRune(`.+*?(){}^$]`, rune(c)):
+			return nil, false
+		default:
+			at.chars = []byte{c}
+			i++
+		}
+		if i < len(a) && a[i] == '?' {
+			at.opt = true
+			i++
+			if i < len(a) && a[i] == '?' {
+				return nil, false // lazy
+			}
+		}
+		atoms = append(atoms, at)
+	}
+	// priority order of leftmost-first matching: depth-first over the atoms
+	var rec func(k int, pre string, acc *[]string)
+	rec = func(k int, pre string, acc *[]string) {
+		if k == len(atoms) {
+			*acc = append(*acc, pre)
+			return
+		}
+		for _, c := range atoms[k].chars {
+			rec(k+1, pre+string(c), acc)
+		}
+		if atoms[k].opt {
+			rec(k+1, pre, acc)
+		}
+	}
+	var ordered []string
+	rec(0, "", &ordered)
+	for _, x := range ordered {
+		if x == "" {
+			return nil, false
+		}
+	}
+	return ordered, len(ordered) > 0 && len(ordered) <= 32
+}
+
 func genOperators() string {
 	var b strings.Builder
 	b.WriteString("(* GENERATED by tools/gen from /repo (pkg/ecosystem/*/range.go, pkg/spec/vers/vers.go) — do not edit.\n   Comparator spellings in source order. *)\nFrom Verif.Base Require Import Bytes.\n\n")
@@ -182,7 +349,7 @@ func genOperators() string {
 		ops, how := operatorList("pkg/ecosystem/" + e + "/range.go")
 		if ops == nil {
 			if e != "maven" {
-				problems = append(problems, "stale operators of "+e+": no operators slice / constraintPattern found")
+				stale(&b, "operators of "+e+" (no operators slice / literal constraintPattern alternation found)", "Operators.v", e+"_ops")
 			}
 			continue
 		}
@@ -190,7 +357,7 @@ func genOperators() string {
 	}
 	ops, _ := operatorList("pkg/spec/vers/vers.go")
 	if ops == nil {
-		problems = append(problems, "stale operators of vers")
+		stale(&b, "operators of vers", "Operators.v", "vers_ops_text")
 	} else {
 		fmt.Fprintf(&b, "(* pkg/spec/vers parseConstraint *)\nDefinition vers_ops_text : list bytes := %s.\n", coqList(ops))
 	}
@@ -358,7 +525,16 @@ func genTables() string {
 		env := intConsts(f)
 		rows, ok := mapTable(f, m.name, env)
 		if !ok {
-			problems = append(problems, "stale table "+m.eco+"."+m.name)
+			defs := []string{m.eco + "_" + m.name}
+			if src, ok := snapFile("Tables.v"); ok {
+				// the integer constants rendered next to the table in the snapshot
+				for _, l := range strings.Split(src, "\n") {
+					if strings.HasPrefix(l, "Definition "+m.eco+"_") && strings.Contains(l, " : Z := ") {
+						defs = append(defs, strings.Fields(l)[1])
+					}
+				}
+			}
+			stale(&b, "table "+m.eco+"."+m.name, "Tables.v", defs...)
 			continue
 		}
 		renderTable(&b, m.eco+"_"+m.name, rows)
@@ -386,7 +562,7 @@ func genTables() string {
 		env := intConsts(f)
 		rows, def, ok := switchTable(f, s.fn, env)
 		if !ok || def == "" {
-			problems = append(problems, "stale switch table "+s.eco+"."+s.fn)
+			stale(&b, "switch table "+s.eco+"."+s.fn, "Tables.v", s.eco+"_"+s.fn, s.eco+"_"+s.fn+"_default")
 			continue
 		}
 		renderTable(&b, s.eco+"_"+s.fn, rows)
@@ -727,10 +903,33 @@ func genVersDispatch() string {
 // identifier is not declared inside that function (parameters and the receiver count as
 // non-local when written THROUGH: `p.f = …`, `p[i] = …`, `*p = …`), and every package-level
 // variable with the kind of its initialiser.
+// plainLiteral: a composite literal (the caller admits slices and arrays only) built from literals
+// only — no call, no function literal, no address-of, no type from sync or sync/atomic.  Such a
+// value has no hidden mutable state; writes to it are reported by the write analysis.
+func plainLiteral(e ast.Expr) bool {
+	ok := true
+	ast.Inspect(e, func(n ast.Node) bool {
+		switch x := n.(type) {
+		case *ast.CallExpr, *ast.FuncLit, *ast.ChanType, *ast.MapType:
+			ok = false
+		case *ast.UnaryExpr:
+			if x.Op == token.AND || x.Op == token.ARROW {
+				ok = false
+			}
+		case *ast.SelectorExpr:
+			if id, isId := x.X.(*ast.Ident); isId && (id.Name == "sync" || id.Name == "atomic") {
+				ok = false
+			}
+		}
+		return ok
+	})
+	return ok
+}
+
 func genEffects() string {
 	var b strings.Builder
 	b.WriteString("(* GENERATED by tools/gen from /repo (pkg/**, cmd/*; tests excluded) — do not edit.\n   Write effects that can outlive a call, for C19. *)\nFrom Verif.Base Require Import Bytes.\n\n")
-	b.WriteString("Inductive var_kind := VRegexp | VMapLiteral | VOtherVar.\nInductive write_target := WPackageVar | WThroughParam | WThroughReceiver | WUnknown.\n\n")
+	b.WriteString("Inductive var_kind := VRegexp | VMapLiteral | VLiteral | VOtherVar.\nInductive write_target := WPackageVar | WThroughParam | WThroughReceiver | WUnknown.\n\n")
 	var pkgVars, writes []string
 	var dirs []string
 	filepath.Walk(filepath.Join(repo, "pkg"), func(p string, info os.FileInfo, err error) error {
@@ -780,7 +979,11 @@ func genEffects() string {
 								case *ast.CompositeLit:
 									if _, ok := v.Type.(*ast.MapType); ok {
 										kind = "VMapLiteral"
+									} else if _, isArr := v.Type.(*ast.ArrayType); isArr && plainLiteral(v) {
+										kind = "VLiteral"
 									}
+								case *ast.BasicLit:
+									kind = "VLiteral"
 								}
 							}
 							rel, _ := filepath.Rel(repo, dir)
